@@ -83,6 +83,55 @@ def features(beh):
     return f
 
 
+MON_ARMS = ("CreateSC", "RestoreSession", "RecreateSession", "Transfer", "RestoreSubs", "RecPause", "RecFinish", "Pause", "Done", "Resume")
+
+
+def mon_features(beh):
+    """where the application is while the monitor takes a step of its reconnect (and vice versa)"""
+    f = set()
+    appst = {}
+    for st in beh["steps"]:
+        p, a = st["p"], st["a"]
+        if p in ("env", "init", "loop"):
+            continue
+        if p == "mon":
+            if a in MON_ARMS:
+                for app, where in appst.items():
+                    if where != "idle":
+                        f.add("%s@%s" % (where, a))
+            continue
+        appst[p] = {"SubCall": "subscribe-before-send", "SubSend": "subscribe-before-register", "SubReg": "idle", "SubCallErr": "idle",
+                    "CancelCall": "cancel-before-lock", "CancelSkip": "idle", "FgLock": "cancel-holding-submux",
+                    "FgDelete": "cancel-holding-submux" if appst.get(p) == "cancel-holding-submux" else "idle",
+                    "FgPause": "cancel-holding-submux", "FgUnlock": "idle"}.get(a, appst.get(p, "idle"))
+        if a == "FgDelete":
+            # FgDelete ends the call unless the pause signal follows
+            pass
+    return f
+
+
+def pick_mon(rows, n, seed):
+    """behaviours with a fault: cover the (application position, monitor step) pairs, restoreSubscriptions first"""
+    rnd = random.Random(seed)
+    rows = [b for b in rows if any(s["a"] == "Fault" for s in b["steps"]) and not b["stuck"]]
+    rnd.shuffle(rows)
+    rows.sort(key=lambda b: len(b["steps"]))
+    feats = {id(b): mon_features(b) for b in rows}
+    allf = sorted(set().union(*feats.values())) if rows else []
+    allf.sort(key=lambda x: (0 if x.endswith("@RestoreSubs") else 1, x))
+    chosen, covered = [], set()
+    for ft in allf:
+        if ft in covered or len(chosen) >= n:
+            continue
+        for b in rows:
+            if b not in chosen and ft in feats[id(b)]:
+                chosen.append(b)
+                covered |= feats[id(b)]
+                break
+    rest = [b for b in rows if b not in chosen]
+    return (chosen + rest)[:n], sorted(covered)
+
+
 def pick_features(rows, n, seed):
     """seeded choice of n rows that covers every feature at least once where possible"""
     rnd = random.Random(seed)
@@ -256,6 +305,75 @@ def fault_rows(behs, seed=1, noauto=False):
     return list(rows.values())
 
 
+FAULT_EVENTS = ("data-acklost", "lose-kept", "lose-lost", "cut-kept", "cut-lost")
+
+
+def stream_situations(row):
+    """(what came before, fault event) pairs of a SubSeq row"""
+    out = set()
+    ev = row["events"]
+    for i, e in enumerate(ev):
+        if e in FAULT_EVENTS:
+            prev = "start" if i == 0 else ("fault" if ev[i - 1] in FAULT_EVENTS else ev[i - 1])
+            out.add(prev + ">" + e)
+    return out
+
+
+def pick_stream_rows(rows, n, seed):
+    """seeded greedy cover of all situations, then filled up to n"""
+    rnd = random.Random(seed)
+    rows = [r for r in rows if stream_situations(r)]
+    rnd.shuffle(rows)
+    chosen, covered = [], set()
+    while True:
+        best, gain = None, 0
+        for r in rows:
+            g = len(stream_situations(r) - covered)
+            if g > gain:
+                best, gain = r, g
+        if best is None:
+            break
+        chosen.append(best)
+        covered |= stream_situations(best)
+    rest = [r for r in rows if r not in chosen]
+    return (chosen + rest)[:max(n, len(chosen))], sorted(covered)
+
+
+def run_stream(run, vf, exe, gen):
+    """C26: SubSeq rows on the real client against the scripted subscription server"""
+    rows, sits = pick_stream_rows(gen.rows, run.pick(8, 60), run.seed)
+    cases = []
+    for i, r in enumerate(rows):
+        cases.append({"id": "s%d" % i, "events": r["events"], "delivered": r["delivered"], "acked": sorted(r["acked"]),
+                      "dead": bool(r["dead"]), "tries": 2})
+    run.log("SubSeq: %d rows generated, %d situations, running %d rows" % (len(gen.rows), len(sits), len(cases)))
+    results = run.go_run(exe, ["-mode", "stream", "-par", str(run.pick(10, 12))], cases=cases, timeout=run.pick(900, 3000))
+    if len(results) != len(cases):
+        raise vf.Inconclusive("harness returned %d results for %d stream rows" % (len(results), len(cases)))
+    byid = {c["id"]: c for c in cases}
+    traces = []
+    for r in results:
+        obs = r.get("obs") or {}
+        tr = obs.pop("trace", None)
+        c = byid.get(r["case"], {})
+        for v in obs.get("violations", []):
+            run.violation(v["key"], v["detail"], case={"events": c.get("events"), "specification_delivers": c.get("delivered")})
+        if r["status"] == "violation":
+            r["status"], r["key"], r["detail"] = "ok", None, None
+        if r["status"] == "inconclusive" and "could not be driven" in (r.get("detail") or ""):
+            run.notes.append("undriven stream row: %s" % (r.get("detail") or "")[:200])
+            r["status"], r["class"], r["nontrivial"] = "ok", "", False
+            run.cov["undriven"] = run.cov.get("undriven", 0) + 1
+            tr = None
+        if tr:
+            recs = normalize_life(tr)
+            traces.append((r["case"], "\n".join(json.dumps(x) for x in recs) + "\n", len(recs)))
+    run.absorb(results)
+    run.cov["stream_rows"] = len(cases)
+    run.cov["stream_situations"] = sits
+    return traces, byid
+
+
 def run_faults(run, vf, prop):
     """common body of C25 / C26"""
     import re
@@ -268,6 +386,8 @@ def run_faults(run, vf, prop):
         lambda: run.tlc("ClientConn", "ClientConnMC", "C25_gen.cfg", mode="gen", count=False, timeout=3000,
                         simulate=run.pick(200, 3000), depth=150, label="as-is model: seeded sample of fault scenarios"),
         lambda: exe.__setitem__(0, run.go_build("clientconn")),
+        lambda: run.tlc("ClientConn", "ClientConnMC", "C25_gen_outage.cfg", mode="gen", count=False, timeout=3000,
+                        label="as-is model: every scenario around one outage (end / Close at each injection point)"),
     ]
     if prop == "C25":
         jobs.append(lambda: run.tlc("ClientConn", "ClientConnMC", "C25_dev_armclose.cfg", expect="violation", count=False, timeout=1500, workers=2,
@@ -279,6 +399,15 @@ def run_faults(run, vf, prop):
     else:
         jobs.append(lambda: run.tlc("ClientConn", "ClientConnMC", "C26_dev_restore.cfg", expect="violation", count=False, timeout=1500, workers=2,
                                     label="deviation demo: restored session does not resume -> InvSubsSurvive"))
+        jobs.append(lambda: run.tlc("ClientConn", "SubSeq", "SubSeq_gen.cfg" if q else "SubSeq_gen_thorough.cfg", mode="gen", count=False,
+                                    timeout=1500, label="SubSeq as-is: every scenario row with what the application must receive"))
+        jobs.append(lambda: run.tlc("ClientConn", "SubSeq", "SubSeq_contract.cfg" if q else "SubSeq_contract_thorough.cfg", timeout=1500, workers=2,
+                                    label="SubSeq contract: exactly-once delivery and acknowledgement across reconnects"))
+        for cfg, what in (("SubSeq_dev_keepalive.cfg", "keep-alive advances nextSeq -> notification skipped by Republish"),
+                          ("SubSeq_dev_transfer.cfg", "transferred subscription with empty queue not resumed"),
+                          ("SubSeq_dev_noack.cfg", "republished notifications never acknowledged")):
+            jobs.append(lambda cfg=cfg, what=what: run.tlc("ClientConn", "SubSeq", cfg, expect="violation", count=False, timeout=1500, workers=1,
+                                                           label="deviation demo: " + what))
     res = run.parallel(*jobs)
     rows = fault_rows(res[1].rows, run.seed)
     nrestart = lambda r: sum(1 for i in r["items"] if i["k"] == "restart")
@@ -295,9 +424,21 @@ def run_faults(run, vf, prop):
             if i["k"] == "outage":
                 i["how"] = "killopn"
     must = pick([r for r in rows if nrestart(r) >= 2 and r["script"] and not r["closed"]], 1, run.seed) + kill
+    # always: an outage of at least three reconnect intervals (the dial counter must keep growing, Connected again
+    # afterwards) and, for C25, Close() inside such an outage after failed dials (state Reconnecting)
+    orows = fault_rows(res[3].rows, run.seed)
+    shape = lambda r: [(i["k"], i["at"]) for i in r["items"]]
+    long_outage = [r for r in orows if shape(r) == [("outage", "idle"), ("end", "m.dial")] and r["script"]]
+    close_in_outage = [r for r in orows if shape(r) == [("outage", "idle"), ("close", "m.dial")]]
+    for r in long_outage + close_in_outage:
+        r["items"][0]["how"] = "refuse"
+    must += pick(long_outage, 1, run.seed)
+    if prop == "C25":
+        must += pick(close_in_outage, 1, run.seed)
+    rows += [r for r in orows if r not in rows]
     sel = must + [r for r in pick(rows, n, run.seed, key=kinds) if r not in must][:max(0, n - len(must))]
     if prop == "C25":
-        na = fault_rows(res[5].rows, run.seed, noauto=True)
+        na = fault_rows(res[6].rows, run.seed, noauto=True)
         na = [r for r in na if len(r["items"]) == 1 or r["items"][-1]["k"] == "close"]
         sel += pick(na, run.pick(2, 8), run.seed, key=kinds)
     else:
@@ -334,8 +475,12 @@ def run_faults(run, vf, prop):
             recs = normalize_life(tr)
             traces.append((r["case"], "\n".join(json.dumps(x) for x in recs) + "\n", len(recs)))
     run.absorb(results)
+    ack_only = []
+    if prop == "C26":
+        stream_traces, _ = run_stream(run, vf, exe[0], res[5])
+        ack_only = stream_traces
     if run.cov.get("undriven", 0) * 3 > len(cases):
-        raise vf.Inconclusive("%d of %d fault scenarios could not be driven" % (run.cov["undriven"], len(cases)))
+        raise vf.Inconclusive("%d of %d scenarios could not be driven" % (run.cov["undriven"], len(cases)))
 
     def report(what, k, rest, case):
         if prop == "C25" and what == "UNDOC":
@@ -369,11 +514,11 @@ def run_faults(run, vf, prop):
         return cid, text, r
 
     def ackobs():
-        text = "".join(t[1] for t in traces)
+        text = "".join(t[1] for t in traces + ack_only)
         return run.tlc("ClientConn", "AckObs", "AckObs.cfg", mode="trace", files={"trace.ndjson": text}, count=True, timeout=1500,
                        label="acknowledgement observer over %d traces" % len(traces))
     thunks = [(lambda t=t: validate(t)) for t in traces]
-    if prop == "C26" and traces:
+    if prop == "C26" and (traces or ack_only):
         thunks.append(ackobs)
     out = []
     step = 12
@@ -387,7 +532,7 @@ def run_faults(run, vf, prop):
                 run.save_text("tlc-ackobs.out", o.out)
                 raise vf.Inconclusive("acknowledgement observer did not run: %s" % (o.error or o.violated,))
             spans, a = [], 1
-            for cid, text, n in traces:
+            for cid, text, n in traces + ack_only:
                 spans.append((a, a + n - 1, cid))
                 a += n
             seen = set()
@@ -398,7 +543,7 @@ def run_faults(run, vf, prop):
                 seen.add((what, k, rest))
                 cid = next((c for x, y, c in spans if x <= k <= y), None)
                 c = byid.get(cid, {})
-                report(what, k, rest, {"script": c.get("script"), "items": c.get("items"), "event": k})
+                report(what, k, rest, {"scenario": cid, "script": c.get("script"), "items": c.get("items"), "event": k})
             run.cov["ack_traces_observed"] = len(traces)
             continue
         cid, text, tv = o
